@@ -4,7 +4,7 @@ import itertools
 import z3
 
 from pyvc.verify import Unit, Outcome
-from pyvc.interp import Loop
+from pyvc.interp import Loop, PyRaise
 from pyvc.values import SInt, SStr, SElem, SBool, SFloat, Obj, PList, zi, zr, zs, zb, mk_bool, mk_int
 from pyvc.runner import BoundedResult
 from .common import Vals, Stubs, real_env, I, cls_name
@@ -328,7 +328,7 @@ def units(w):
     pymod = lambda x, y: x - y * z3.If(y > 0, x / y, (-x) / (-y))
 
     def ckl_call(it, text, bindings, patch=None):
-        I = cklsym.native_session(("Math",))
+        I = cklsym.native_session(("Math", "Stat"))
         R = cklsym.Reflector(w)
         R.seed_singletons(_sys.modules["ckl.values"])
         env = R.reflect(I.environment)
@@ -456,6 +456,63 @@ def units(w):
     U.append(Unit("nodes.py::NodeDerefInvoke.evaluate", s_lcm, p_lcm, name="math.ckl::lcm[real module source, all ints, gcd by its contract]",
                   config={"prefer": "z3"},
                   replay=replay_lang([("require Math; Math->lcm(0, 0)", "0"), ("require Math; Math->lcm(4, -6)", "12"), ("require Math; Math->lcm(21, 6)", "42")])))
+
+    # ---- order statistics and mean of stat.ckl on the module's real AST: lists of n <= 3 symbolic numbers, every arrangement
+    #      (symbolic-bounded in the length; the values are arbitrary ints or decimals)
+    import itertools as _it
+
+    def s_stat(fname, n, numkind):
+        def setup(it):
+            xs = [(V.int if numkind == "int" else V.dec)(it, f"x{i}") for i in range(n)]
+            if numkind == "int" and fname in ("mean", "median"):
+                # these two convert to decimals: ints within the exactly representable range (beyond it the conversion rounds or
+                # overflows into a language error - the same for every arrangement, since the sum of ints is exact)
+                for x in xs:
+                    it.assume(z3.And(zi(x.fields["value"]) >= -2 ** 50, zi(x.fields["value"]) <= 2 ** 50))
+            perms = list(_it.permutations(range(n)))
+            pm = perms[it.path.choose(len(perms))]
+            outs = []
+            for order in (tuple(range(n)), pm):
+                lst = V.list_of(it, [xs[i] for i in order], "l")
+                call, env = ckl_call(it, f"Stat->{fname}(l)", {"l": lst})
+                try:
+                    outs.append(("return", it.call(w.func("nodes.py::NodeDerefInvoke.evaluate"), [call, env])))
+                except PyRaise as e:
+                    outs.append(("raise", e.exc))
+            it.ghost["outs"] = outs
+            it.ghost["xs"] = xs
+            return [], {}, {"n": n}
+        return setup
+
+    def b_stat(it, c):
+        return Outcome("return", None)
+
+    def p_stat(fname, n, numkind):
+        def post(it, c, o):
+            (k0, r0), (k1, r1) = it.ghost["outs"]
+            xs = it.ghost["xs"]
+            it.check("post:returns-a-number-for-both-arrangements", k0 == "return" and k1 == "return" and cls_name(r0) in ("ValueInt", "ValueDecimal") and cls_name(r0) == cls_name(r1))
+            if not (k0 == "return" and k1 == "return" and cls_name(r0) in ("ValueInt", "ValueDecimal") and cls_name(r0) == cls_name(r1)):
+                return
+            num = lambda v: (z3.ToReal(zi(v.fields["value"])) if cls_name(v) == "ValueInt" else v.fields["value"].z)
+            it.check("post:the-same-result-for-every-arrangement-of-the-same-values", num(r0) == num(r1))
+            if fname in ("median_low", "median_high"):
+                r = num(r0)
+                vals_ = [num(x) for x in xs]
+                idx_ = (n - 1) // 2 if fname == "median_low" else n // 2
+                le = z3.Sum([z3.If(v <= r, 1, 0) for v in vals_])
+                ge = z3.Sum([z3.If(v >= r, 1, 0) for v in vals_])
+                it.check("post:it-is-the-order-statistic-of-its-rank(an element with enough elements below and above)",
+                         z3.And(z3.Or(*[r == v for v in vals_]), le >= idx_ + 1, ge >= n - idx_))
+        return post
+    for fname in ("median_low", "median_high", "median", "mean"):
+        for n in (1, 2, 3):
+            for numkind in ("int", "decimal"):
+                U.append(Unit("nodes.py::NodeDerefInvoke.evaluate", s_stat(fname, n, numkind), p_stat(fname, n, numkind), body=b_stat,
+                              name=f"stat.ckl::{fname}[real module source, {n} {numkind}s, every arrangement]",
+                              bounded="lists of <= 3 elements (symbolic values; ints of mean/median within +-2^50)",
+                              replay=replay_lang([("require Stat; Stat->mean([0.1, 0.2, 0.3]) == Stat->mean([0.3, 0.2, 0.1])", "TRUE"),
+                                                  ("require Stat; Stat->median_low([3, 1, 2])", "2"), ("require Stat; Stat->median_high([4, 1, 3, 2])", "3")])))
 
     return U
 
